@@ -30,6 +30,16 @@ class _FalsyCollector(list):
         self.append(err)
 
 
+class _Sink:
+    """A user object whose bound method is the handler; nothing else refers to the object."""
+
+    def __init__(self, store):
+        self.store = store
+
+    def put(self, err):
+        self.store.append(err)
+
+
 class _Count(logging.Handler):
     def __init__(self):
         super().__init__(level=logging.DEBUG)
@@ -131,8 +141,10 @@ def judge(case):
         closer = stream.close
     try:
         rdr = RTCMReader(stream, quitonerror=q,
-                         errorhandler=(herrs if use_handler == "falsy" else herrs.append)
+                         errorhandler=(herrs if use_handler == "falsy" else
+                                       _Sink(herrs).put if use_handler == "method" else herrs.append)
                          if use_handler else None)
+        # (nothing else refers to the handler's owner now; CPython frees unreferenced objects at once)
         events = []
         for _ in range(2 * len(frames) + 4):
             try:
@@ -208,6 +220,8 @@ def cases(tier):
         for i in range(k):
             for q in (0, 1, 2):
                 out.append({"frames": frames, "damage": {i: 1}, "q": q, "handler": "falsy"})
+                out.append({"frames": frames, "damage": {i: 1}, "q": q, "handler": "method"})
+                out.append({"frames": frames, "damage": {j: 1 for j in range(k)}, "q": q, "handler": "method"})
     for k in ks:
         frames = base_frames(k)
         # no damage
